@@ -81,6 +81,16 @@ func (c *Case) Known(sig string) bool {
 	return false
 }
 
+// Excluding reports whether a trigger listed as a known finding is to be left out of the search by
+// construction (search mode only), and counts the exclusion.
+func (c *Case) Excluding(sig string) bool {
+	if c.suppress && knownSigs()[sig] {
+		c.knownHits[sig+" (excluded by construction)"]++
+		return true
+	}
+	return false
+}
+
 // IsKnownListed tells generators whether a signature is listed (to exclude a trigger by
 // construction). Does not count.
 func IsKnownListed(sig string) bool { return knownSigs()[sig] }
@@ -288,4 +298,12 @@ func trimStack(s string) string {
 		lines = lines[:60]
 	}
 	return strings.Join(lines, "\n")
+}
+
+func firstLines(s string, n int) string {
+	l := strings.Split(s, "\n")
+	if len(l) > n {
+		l = l[:n]
+	}
+	return strings.Join(l, "\n")
 }
